@@ -10,6 +10,7 @@ Contract encoded (NumPy reference manual, "Indexing on ndarrays", "Copies and vi
 Shapes are concrete per path; cells may be symbolic.  dtype is a real numpy.dtype (concrete).
 """
 import numpy as _np
+_builtin_all = all
 
 from .cells import NAN, POISON, ModelGap, is_nan, norm_cell, cell_kind, BoolScalar, is_symbolic, num_eq, num_lt, Buf, conc, fast, in_fast_path
 
@@ -198,6 +199,8 @@ def cast_cell(v, dt, assign=False):
         if is_symbolic(v):
             raise ModelGap('symbolic value cast to datetime64/timedelta64')
         return _np.array([v]).astype(dt)[0]
+    if k == 'V' and dt.names is not None and isinstance(v, tuple) and len(v) == len(dt.names):
+        return tuple(cast_cell(x, dt[n], assign) for x, n in zip(v, dt.names))   # a record: field by field
     raise ModelGap(f'cast to dtype {dt}')
 
 
@@ -792,6 +795,22 @@ class ndarray:
         if not a and not kw:
             return ndarray._new(self._buf, self._off, self._shape, self._st, self._dtype,
                     writeable=self.flags._writeable, base=self._root())
+        # the one re-interpreting view static-frame uses (util._ufunc_set_2d): a C-contiguous 2-D array of ONE dtype seen as a
+        # column of records of `width` unnamed fields of that dtype (records compare field by field, like the tuples that
+        # stand for them here), and such a record array seen again as its flat cells
+        dt = a[0] if a else kw.get('dtype')
+        if isinstance(dt, list) and self.ndim == 2 and len(dt) == self._shape[1] and _builtin_all(
+                isinstance(f, tuple) and len(f) == 2 and f[0] == '' and as_dtype(f[1]) == self._dtype for f in dt):
+            rows = self.tolist()
+            return ndarray._from_cells([tuple(r) for r in rows], (len(rows), 1), _np.dtype(dt))
+        if self._dtype.names is not None and not isinstance(dt, list):
+            dt = as_dtype(dt)
+            if _builtin_all(self._dtype[n] == dt for n in self._dtype.names):
+                cells = [c for t in self._cells() for c in t]
+                if self.ndim == 1:
+                    return ndarray._from_cells(cells, (len(cells),), dt)
+                if self.ndim == 2 and self._shape[1] == 1:
+                    return ndarray._from_cells(cells, (self._shape[0], len(self._dtype.names)), dt)
         raise ModelGap('ndarray.view(dtype)')
 
     def searchsorted(self, *a, **kw):
